@@ -39,6 +39,13 @@ func kindOf(n schema.Node) string {
 	return fmt.Sprintf("%T", n)
 }
 
+func maxStr(m uint) string {
+	if m == ^uint(0) {
+		return "unbounded"
+	}
+	return fmt.Sprint(m)
+}
+
 func underChoice(p schema.Node, name string) bool {
 	for _, cd := range p.Choices() {
 		if _, ok := cd.(schema.Choice); ok && cd.Child(name) != nil {
@@ -100,7 +107,9 @@ func dumpOf(n schema.Node) *dnode {
 	case schema.Container:
 		core = append(core, fmt.Sprintf("flag=%v", v.Presence()))
 	case schema.List:
-		core = append(core, "keys="+strings.Join(v.Keys(), ","))
+		core = append(core, "keys="+strings.Join(v.Keys(), ","), "min="+fmt.Sprint(v.Limit().Min), "max="+maxStr(v.Limit().Max))
+	case schema.LeafList:
+		core = append(core, "min="+fmt.Sprint(v.Limit().Min), "max="+maxStr(v.Limit().Max))
 	case schema.Leaf:
 		core = append(core, fmt.Sprintf("flag=%v", v.Mandatory()))
 		if dv, ok := v.Default(); ok {
